@@ -223,7 +223,7 @@ fn is_inlinable_chain(chain: &Chain) -> bool {
 /// A chain that needs no block frame of its own: it binds nothing and contains no in-chain match. A
 /// match is excluded because a block disables complement narrowing (see `compiler.rs`), so a block
 /// wrapping a match can be a deliberate narrowing barrier; keeping it avoids changing type-checking.
-fn is_frame_free_chain(chain: &Chain) -> bool {
+pub(crate) fn is_frame_free_chain(chain: &Chain) -> bool {
     chain.match_pattern.is_none() && !chain.terms.iter().any(contains_match)
 }
 
